@@ -88,6 +88,37 @@ def main():
         print("REJECT %s: demonstration does not fail with the patch\n%s" % (name, out[-600:]))
         shutil.rmtree(scratch, ignore_errors=True)
         return 2
+    # a base commit is an older tree: the checks have grown since and may find, in that tree, the
+    # defects that were repaired later. Such a run says nothing about the seeded change, so the
+    # unpatched base commit is run first as a control (without the regression tier, which holds
+    # exactly those later repairs).
+    on_base = not meta["evaluated_on"].startswith("current")
+    env_extra = "VERIF_NO_REGRESS=1 " if on_base else ""
+    if on_base:
+        control = "/tmp/se-control-" + name
+        shutil.rmtree(control, ignore_errors=True)
+        os.makedirs(control)
+        sh("git -C /repo archive %s | tar -x -C %s" % (base, control))
+        rc, out = sh("%sVERIF_REPO=%s ./check %s --tier quick" % (env_extra, control, prop), cwd=VERIF)
+        sh("git clean -fdq replays/ 2>/dev/null; git checkout -- evidence 2>/dev/null", cwd=VERIF)
+        shutil.rmtree(control, ignore_errors=True)
+        meta["control_on_unpatched_base_rc"] = rc
+        if rc != 0:
+            meta["re_evaluation"] = "inconclusive: the current check already reports a violation on the unpatched base commit %s (a defect repaired later), so a run against the patched base says nothing about this change; the result recorded when the change was written stands" % base
+            dst = os.path.join(VERIF, "seeded", name)
+            os.makedirs(dst, exist_ok=True)
+            old = {}
+            try:
+                old = json.load(open(os.path.join(dst, "meta.json")))
+            except Exception:
+                pass
+            for k in ("caught_by_target_check", "check_results", "initially_missed_then_caught_after_strengthening", "caught_by_other_check", "note"):
+                if k in old:
+                    meta[k] = old[k]
+            json.dump(meta, open(os.path.join(dst, "meta.json"), "w"), indent=1)
+            shutil.rmtree(scratch, ignore_errors=True)
+            print("KEPT %s: control on the unpatched base commit fails (rc=%d): re-evaluation inconclusive, earlier result stands (%s)" % (name, rc, "CAUGHT" if meta.get("caught_by_target_check") else "MISSED"))
+            return 0
     # run the checks
     props = [prop]
     if run_all:
@@ -95,7 +126,7 @@ def main():
     caught = {}
     for p in props:
         t = time.time()
-        rc, out = sh("VERIF_REPO=%s ./check %s --tier quick" % (scratch, p), cwd=VERIF)
+        rc, out = sh("%sVERIF_REPO=%s ./check %s --tier quick" % (env_extra, scratch, p), cwd=VERIF)
         caught[p] = {"rc": rc, "wall_s": round(time.time() - t, 1), "last_lines": out.strip().splitlines()[-3:]}
         print("  %s on %s: rc=%d (%.0fs)" % (p, name, rc, time.time() - t))
         # failures found on a patched copy are not replays of the real tree
